@@ -208,6 +208,42 @@ def f_rule_pairs(pairs, consts=K3, contexts=("stack",), chains=(0,)):
     return out
 
 
+def f_rule_siblings(ops, consts=(0, 1)):
+    """two rule-relevant instructions applied to the SAME stack value, both results left on the stack (rules that look
+    for an existing instruction on the same operand, e.g. LT(X,1) next to ISZERO(X))"""
+    out = []
+    forms = []
+    for op in ops:
+        ar = _arity(op)
+        if ar == 1:
+            forms.append((op, V(0)))
+        elif ar == 2:
+            for c in consts:
+                forms.append((op, V(0), c))
+                forms.append((op, c, V(0)))
+            forms.append((op, V(0), V(1)))
+    for a in forms:
+        for b in forms:
+            if a is b:
+                continue
+            out.append(" ".join(compile_exprs([a, b], 2)))
+    return out
+
+
+def deep_stack_blocks():
+    """blocks whose operands sit 14..16 deep (DUP16/SWAP16 reach)"""
+    out = []
+    for op in ("SUB", "DIV", "LT", "SHL", "ADD", "AND"):
+        for k in (14, 15, 16):
+            out.append("DUP%d %s" % (k, op))
+            out.append("DUP%d DUP2 %s" % (k, op))
+            out.append("DUP%d DUP%d %s" % (k, k, op))
+            out.append("SWAP%d %s" % (k, op))
+            out.append("DUP%d SWAP1 %s SWAP%d" % (k, op, k - 1))
+        out.append("DUP16 DUP16 %s DUP16 %s" % (op, op))
+    return out
+
+
 def f_rule_chains(ops, depth=4):
     out = []
     for op in ops:
@@ -239,10 +275,13 @@ def _tok(instr):
     return (p[0], p[1] if len(p) > 1 else None)
 
 
-def f_exh(L, max_in=3):
+V_EXH2 = ["PUSH 0", "PUSH 1", "DUP1", "DUP2", "SWAP1", "SWAP2", "POP", "LT", "GT", "EQ", "ISZERO", "SUB", "XOR", "OR", "EXP", "SHR"]
+
+
+def f_exh(L, max_in=3, vocab=None):
     out = []
     for n in range(1, L + 1):
-        for blk in itertools.product(V_EXH, repeat=n):
+        for blk in itertools.product(vocab or V_EXH, repeat=n):
             need, _ = E.needed_depth([_tok(i) for i in blk])
             if need <= max_in:
                 out.append(" ".join(blk))
